@@ -167,7 +167,7 @@ _LOCK_TYPES = (type(threading.Lock()), type(threading.RLock()))
 
 
 class Interleaver:
-    def __init__(self, timeout=120.0):
+    def __init__(self, timeout=900.0):
         self.tls = threading.local()
         self.shimmed = {}
         self.locks = []
